@@ -304,16 +304,16 @@ func checkStream(c *rp.Ctx, who, role string, wire []byte, msgs []wireMsg, want 
 }
 
 // ----------------------------------------------------------------------------- upgrade
-func runUpgrade(c *rp.Ctx, i int, cs *hsCase) rp.Result {
+func runUpgrade(c *rp.Ctx, i, v int, cs *hsCase) rp.Result {
 	srv := hsServer()
 	addr := srv.Listener.Addr().String()
-	bufs := []int{0, 256, 1024}[i%3]
+	bufs := []int{0, 256, 1024}[v%3]
 	script := mkSteps("pat",
 		step{API: "WM", T: 1, Size: 5, Parts: [][]int{{5, 1}}},
 		step{API: "NW", T: 2, Size: 300, Parts: [][]int{{200, 1}, {100, 1}}},
 		step{API: "PM", T: 2, Size: 4200, Parts: [][]int{{4200, 1}}})
 	job := &srvJob{up: websocket.Upgrader{ReadBufferSize: bufs, WriteBufferSize: bufs, EnableCompression: cs.Server.Compress,
-		CheckOrigin: policyFunc(cs.Server.Policy)}, level: []int{1, 9, -2}[i%3], script: serveAndEcho(script, c.Seed)}
+		CheckOrigin: policyFunc(cs.Server.Policy)}, level: []int{1, 9, -2}[(v/3)%3], script: serveAndEcho(script, c.Seed)}
 	path := addJob(job)
 	defer dropJob(path)
 
@@ -417,7 +417,7 @@ func runUpgrade(c *rp.Ctx, i int, cs *hsCase) rp.Result {
 	want = append(want, wantMsg{hello, false})
 	s, err := checkStream(c, "the upgraded server connection", "server", wire, msgs, want)
 	if err != nil {
-		return rp.Fail(i, "%v (%s)", err, desc)
+		return rp.Result{What: fmt.Sprintf("%v (%s)", err, desc), Info: map[string]interface{}{"s": []int{s}}}
 	}
 	return rp.Result{OK: true, Nontriv: true, Info: map[string]interface{}{"s": []int{s}}}
 }
@@ -505,7 +505,7 @@ func dialListener() net.Listener {
 	return dlLn
 }
 
-func runDial(c *rp.Ctx, i int, cs *hsCase) rp.Result {
+func runDial(c *rp.Ctx, i, v int, cs *hsCase) rp.Result {
 	ln := dialListener()
 	hsMu.Lock()
 	hsSeq++
@@ -515,7 +515,7 @@ func runDial(c *rp.Ctx, i int, cs *hsCase) rp.Result {
 	hsMu.Unlock()
 	defer func() { hsMu.Lock(); delete(dlJobs, path); hsMu.Unlock() }()
 
-	bufs := []int{0, 256, 1024}[i%3]
+	bufs := []int{0, 256, 1024}[v%3]
 	d := websocket.Dialer{EnableCompression: cs.Compress, ReadBufferSize: bufs, WriteBufferSize: bufs, HandshakeTimeout: ioWait}
 	conn, _, err := d.Dial("ws://"+ln.Addr().String()+path, nil)
 	desc := fmt.Sprintf("response %+v to a Dialer with compression %v", cs.Resp, cs.Compress)
@@ -563,7 +563,7 @@ func runDial(c *rp.Ctx, i int, cs *hsCase) rp.Result {
 		step{API: "WM", T: 1, Size: 10, Parts: [][]int{{10, 1}}},
 		step{API: "NW", T: 2, Size: 300, Parts: [][]int{{200, 1}, {100, 1}}},
 		step{API: "JS", T: 1, Size: 131, Parts: [][]int{{131, 1}}})
-	conn.SetCompressionLevel([]int{1, 9, -2}[i%3])
+	conn.SetCompressionLevel([]int{1, 9, -2}[(v/3)%3])
 	for k := range script.Steps {
 		st := &script.Steps[k]
 		if err := writeStep(conn, st, payload(script, st, c.Seed), c.Seed); err != nil {
@@ -583,7 +583,7 @@ func runDial(c *rp.Ctx, i int, cs *hsCase) rp.Result {
 	msgs, want := msgsOf(script, cs.Z, c.Seed)
 	s, err := checkStream(c, "the dialed client connection", "client", wire, msgs, want)
 	if err != nil {
-		return rp.Fail(i, "%v (%s)", err, desc)
+		return rp.Result{What: fmt.Sprintf("%v (%s)", err, desc), Info: map[string]interface{}{"s": []int{s}}}
 	}
 	return rp.Result{OK: true, Nontriv: true, Info: map[string]interface{}{"s": []int{s}}}
 }
@@ -752,15 +752,12 @@ func runSession(c *rp.Ctx, i int, cs *hsCase) rp.Result {
 		rc.mu.Lock()
 		up, down := afterHeader(rc.w.Bytes()), afterHeader(rc.r.Bytes())
 		rc.mu.Unlock()
-		s1, err := checkStream(c, "the dialed client", "client", up, cm, cw)
-		if err != nil {
-			return rp.Fail(i, "%v (%s)", err, desc)
-		}
-		s2, err := checkStream(c, "the upgraded server", "server", down, sm, sw)
-		if err != nil {
-			return rp.Fail(i, "%v (%s)", err, desc)
-		}
+		s1, err1 := checkStream(c, "the dialed client", "client", up, cm, cw)
+		s2, err2 := checkStream(c, "the upgraded server", "server", down, sm, sw)
 		sess = append(sess, s1, s2)
+		if err1 != nil || err2 != nil {
+			return rp.Result{What: fmt.Sprintf("%v %v (%s)", err1, err2, desc), Info: map[string]interface{}{"s": sess}}
+		}
 	}
 	return rp.Result{OK: true, Nontriv: true, Info: map[string]interface{}{"s": sess}}
 }
@@ -776,9 +773,9 @@ func init() {
 		}
 		switch cs.Kind {
 		case "upgrade":
-			return runUpgrade(c, i, &cs)
+			return runUpgrade(c, i, variant(raw), &cs)
 		case "dial":
-			return runDial(c, i, &cs)
+			return runDial(c, i, variant(raw), &cs)
 		case "session":
 			return runSession(c, i, &cs)
 		}
